@@ -310,6 +310,10 @@ def extra_c16(pid, tier, seed, workdir, driver, lib):
             resets = [i for i, l in enumerate(seq) if l.split()[:1] == ["reset"] and results.get(s + i + 1, "").startswith("ok")]
             if not resets:
                 continue
+            # `rebuild c r rot` re-registers the component types in another order and keeps the observer
+            # objects: the prelude construction below does not reproduce that; such histories are left out
+            if any(l.split()[:1] == ["rebuild"] and l.split()[-1:] == ["rot"] for l in seq):
+                continue
             cut = resets[-1]
             prefix = seq[:cut + 1]
             # `rebuild c r` replaces the world by a NEW one (same registrations, other capacities):
